@@ -2,6 +2,7 @@
 
 from __future__ import annotations
 
+from copy import deepcopy
 from typing import TYPE_CHECKING, Any, ClassVar
 from warnings import warn
 
@@ -316,6 +317,7 @@ class ExchangeContext(DisplacementContext):
         "_added_indices",
         "_deleted_atoms",
         "_deleted_indices",
+        "_saved_constraints",
         "accessible_volume",
         "chemical_potential",
         "exchange_atoms",
@@ -342,10 +344,17 @@ class ExchangeContext(DisplacementContext):
         self._added_atoms: Atoms = Atoms()
         self._deleted_indices: IntegerArray = []
         self._deleted_atoms: Atoms = Atoms()
+        self._saved_constraints: list | None = None
 
         self.particle_delta = 0
 
         super().reset()
+
+    def save_constraints(self) -> None:
+        """Remember the constraints before atoms are deleted: `del atoms[...]` remaps or
+        drops them, and they must be restored if the move is rejected."""
+        if self._saved_constraints is None:
+            self._saved_constraints = deepcopy(self.atoms.constraints)
 
     def revert_state(self) -> None:
         """Revert the context to the last saved state."""
@@ -356,6 +365,9 @@ class ExchangeContext(DisplacementContext):
                 raise ValueError("Last deleted atoms was not saved.")
 
             reinsert_atoms(self.atoms, self._deleted_atoms, self._deleted_indices)
+
+            if self._saved_constraints is not None:
+                self.atoms.constraints = self._saved_constraints
 
         super().revert_state()
         self.reset()
